@@ -134,7 +134,22 @@ class CustomError(Exception):
         self.detail = detail
 
 
-EXC_KINDS = ("ValueError", "KeyError", "ZeroDivisionError", "RuntimeError0", "CustomError")
+class KwOnlyError(Exception):
+    """Keyword-only constructor, empty args, picklable through its own __reduce__."""
+
+    def __init__(self, *, code=0):
+        super().__init__()
+        self.code = code
+
+    def __reduce__(self):
+        return (_make_kwonly, (self.code,), self.__dict__)
+
+
+def _make_kwonly(code):
+    return KwOnlyError(code=code)
+
+
+EXC_KINDS = ("ValueError", "KeyError", "ZeroDivisionError", "RuntimeError0", "CustomError", "KwOnlyError", "FileNotFoundError")
 
 
 def make_exc(kind: str):
@@ -148,6 +163,10 @@ def make_exc(kind: str):
         return RuntimeError()
     if kind == "CustomError":
         return CustomError(7, "detail")
+    if kind == "KwOnlyError":
+        return KwOnlyError(code=3)
+    if kind == "FileNotFoundError":
+        return FileNotFoundError(2, "no such thing", "some/file")  # OSError's special constructor
     raise ValueError(kind)
 
 
